@@ -349,6 +349,9 @@ func execProgram(p sProgram, prefix []int, inject func(l1, l2 *tierStore, res []
 		return run
 	}
 	// afterwards L1 holds no entry that differs from L2's
+	if p.Orca == "l1only" {
+		return run
+	}
 	for k, it := range l1.m {
 		o, ok := l2.m[k]
 		if !ok || !bytes.Equal(o.value, it.value) || o.flags != it.flags || o.exp != it.exp {
@@ -497,13 +500,18 @@ func TestC03Random(t *testing.T) {
 	rec := evid.For("C03")
 	rapid.Check(t, func(t *rapid.T) {
 		p := sProgram{Multi: rapid.Bool().Draw(t, "multi"), Conc: rapid.SampledFrom([]uint8{0, 1, 2}).Draw(t, "conc")}
+		if rapid.IntRange(0, 4).Draw(t, "l1only") == 0 {
+			p.Orca = "l1only" // the locking wrapper around the single-tier orchestrator
+		}
 		keys := []string{"a", "b", "c"}
 		for _, k := range keys {
 			switch rapid.IntRange(0, 2).Draw(t, "init") {
 			case 1:
 				p.Preset = append(p.Preset, k)
 			case 2:
-				p.L2Only = append(p.L2Only, k)
+				if p.Orca != "l1only" {
+					p.L2Only = append(p.L2Only, k)
+				}
 			}
 		}
 		nt := rapid.IntRange(2, 4).Draw(t, "threads")
